@@ -4,9 +4,9 @@ import json, os
 
 def st(k, n, **kw):
     d = dict(k=k, n=n, ref0=dict(p="", g=""), cfg="", mand="", dflt="", desc="", iff="", keys=[], c=[], gs=[], ref=[], aug=[],
-             ty=dict(p="", n="", rng="", en=[], base=dict(p="", n="")), units="", tds=[], et=dict(base="", rngs=[], en=[], ids=[]))
+             ty=dict(p="", n="", rng="", len="", en=[], base=dict(p="", n="")), units="", tds=[], et=dict(base="", rngs=[], lens=[], en=[], ids=[]))
     if k in ("leaf", "leaflist") and "ty" not in kw:
-        d["ty"] = dict(p="", n="string", rng="", en=[], base=dict(p="", n=""))
+        d["ty"] = dict(p="", n="string", rng="", len="", en=[], base=dict(p="", n=""))
     d.update(kw)
     return d
 
@@ -17,7 +17,7 @@ def choice(n, *c, **kw): return st("choice", n, c=list(c), **kw)
 def case(n, *c, **kw): return st("case", n, c=list(c), **kw)
 def uses(g, p="", ref=(), aug=(), **kw): return st("uses", g, ref0=dict(p=p, g=g), ref=list(ref), aug=list(aug), **kw)
 def grouping(n, *c, gs=(), tds=()): return dict(n=n, c=list(c), gs=list(gs), tds=list(tds))
-def ty(n, p="", rng="", en=(), base=("", "")): return dict(p=p, n=n, rng=rng, en=[dict(l=l, v=v) for l, v in en], base=dict(p=base[0], n=base[1]))
+def ty(n, p="", rng="", en=(), base=("", ""), len=""): return dict(p=p, n=n, rng=rng, len=len, en=[dict(l=l, v=v) for l, v in en], base=dict(p=base[0], n=base[1]))
 def identity(n, *bases): return dict(n=n, bases=[dict(p=p, n=b) for p, b in bases])
 def typedef(n, t, dflt="", units=""): return dict(n=n, ty=t, dflt=dflt, units=units)
 def module(name, prefix, body, gs=(), tds=(), augs=(), includes=(), imports=(), sub=False, belongs="", ids=()):
@@ -80,6 +80,7 @@ seed3 = {
 tseed1 = {"m": module("m", "m",
     tds=[typedef("t1", ty("int32", rng="0..100"), dflt="5", units="u1"),
          typedef("t2", ty("t1", rng="10..50")),
+         typedef("blob", ty("binary", len="1..16")), typedef("short", ty("string", len="1..8"), dflt="ab"),
          typedef("en", ty("enumeration", en=[("a", -1), ("b", 7), ("c", -1), ("d", 3), ("e", -1)]), dflt="b")],
     gs=[grouping("g", leaf("x", ty=ty("t2", rng="20..30")), leaf("y", ty=ty("t2"), dflt="11", units="mine"), leaf("e", ty=ty("en")))],
     body=[
@@ -90,6 +91,8 @@ tseed1 = {"m": module("m", "m",
         cont("inner", leaf("li", ty=ty("lt")), leaf("n", ty=ty("int32", rng="1..9"), dflt="4"),
              tds=[typedef("lt", ty("uint8", rng="1..200"), dflt="3")]),
         # a sibling scope with its own typedef of the same name
+        cont("blobs", leaf("key", ty=ty("blob")), leaf("kr", ty=ty("blob", len="16")), leaf("sk", ty=ty("short", len="2..3")),
+             leaf("sd", ty=ty("string", len="0..9"))),
         cont("inner2", leaf("li2", ty=ty("lt")), tds=[typedef("lt", ty("string"), dflt="hi", units="chars")]),
     ])}
 
